@@ -158,6 +158,14 @@ _EXTRA_BATCHES = {
     'C11': [dict(name='lifecycle', world='worlds.fsm', cfg=dict(prop='C11', faults=False, events=12,
                                                              mix=dict(run=5, rerun_executing=0, add_target=1, run_all=1, run_empty=0, update=0, submit=6, reset=1, bad_trigger=0)),
                  runs=dict(quick=300, thorough=15000))],
+    # the real waiter protocol (wait_for_todo / wait_for_doing / wait_for_crew, their pollers and re-arming callbacks) as
+    # submissions use it, with run requests landing between a poll and its callback
+    'C04': [dict(name='submission-waiters', world='worlds.fsm',
+                 cfg=dict(prop='C04', faults=False, events=14, workers=[1, 2, 3],
+                          mix=dict(run=6, rerun_executing=0, add_target=0, run_all=2, run_empty=0, update=0, submit=6, reset=0, bad_trigger=0),
+                          priorities=['todo_empty', 'todo_empty', 'doing_empty', 'doing_empty', 'crew_idle'], proc_delays=[0.0, 0.1, 1.0], git_fail=(1, 40),
+                          cb_delays=[0, 0.3, 1.0, 2.0]),
+                 runs=dict(quick=300, thorough=15000))],
     'C18': [pipe('pipe-history', 700, 30000, prop='C18', faults=False, events=12, outcome=dict(success=4, failure=2, invalid=2)),
             pipe('pipe-history-faults', 400, 20000, prop='C18', faults=True, net=True, events=12, mix=MIX_UPDATE, record_on_run=True)],
     'C20': [dict(name='pipe-timers', world='worlds.timer', cfg=dict(prop='C20', faults=False), runs=dict(quick=500, thorough=20000))],
